@@ -97,6 +97,7 @@ type checkOpts struct {
 	secs    int
 	workers int
 	seed    int64
+	noPriority bool
 }
 
 type propRun struct {
@@ -160,6 +161,13 @@ func runProperty(p *Prog, def *PropDef, opts checkOpts) *propRun {
 		sr := runSweep(p, sw)
 		run.sweepRes = append(run.sweepRes, sr)
 		all = append(all, sr.Obls...)
+	}
+	if base := loadBaseline()[def.ID]; len(base) > 0 && !opts.noPriority {
+		for _, o := range all {
+			if base[o.Name] == "discharged" {
+				o.priority = true
+			}
+		}
 	}
 	discharge(all, dir, opts.secs, opts.workers)
 	return run
@@ -498,7 +506,7 @@ func cmdBaseline(args []string) {
 		}
 	}
 	sort.Strings(ids)
-	opts := checkOpts{tier: "quick", secs: 30, workers: 10}
+	opts := checkOpts{tier: "quick", secs: 30, workers: 10, noPriority: true}
 	for _, id := range ids {
 		run := runProperty(p, propDefs[id], opts)
 		m := map[string]string{}
